@@ -313,6 +313,9 @@ class Job:
         # This is true if we fetched the result from the cache.
         self.was_cached: bool = False
 
+        # True while this job holds the resource limits it consumed (see Scheduler limits).
+        self.holds_limits: bool = False
+
         # Hash of the CallNode associated with running this job. This hash requires knowledge
         # of the Job's result, hence is available after either computing or retrieving the result.
         self.call_hash: Optional[str] = None
@@ -1763,6 +1766,7 @@ class Scheduler:
                 self._add_job_pending_limits(job, eval_args)
                 return
             self._consume_resources(job_limits)
+            job.holds_limits = True
 
         # Record that the job is actually starting.
         if job.recording_provenance():
@@ -1840,8 +1844,10 @@ class Scheduler:
         # Ensure we are on main scheduler thread.
         assert self.thread_id == threading.get_ident()
 
-        # Cached jobs won't have used any resources.
-        if not job.was_cached:
+        # Only jobs that consumed resources hold any (not cached or dry-run jobs), and they
+        # return them exactly once.
+        if job.holds_limits:
+            job.holds_limits = False
             self._release_resources(job.get_limits())
             self._check_jobs_pending_limits()
 
@@ -2069,8 +2075,10 @@ class Scheduler:
                 )
             )
 
-            # Cached jobs won't have used any resources.
-            if not job.was_cached:
+            # Only jobs that consumed resources hold any (not cached or dry-run jobs), and
+            # they return them exactly once.
+            if job.holds_limits:
+                job.holds_limits = False
                 self._release_resources(job.get_limits())
                 self._check_jobs_pending_limits()
 
